@@ -27,7 +27,7 @@ POLICY:
   UNKNOWN_FIELDS::REJECT
 FIELDS:
   NAME::["example"∧REQ→§INDEXER]
-  KIND::["X"∧REQ∧ENUM[X,Y,Z]→§META]
+  KIND::["X"∧REQ∧ENUM[X,Y,Z,ALPHA,ALPINE,BETA]→§META]
   COUNT::[1∧OPT∧TYPE[NUMBER]→§SELF]
   TAGS::[["a","b"]∧OPT→§INDEXER]
 ===END===
@@ -41,7 +41,7 @@ POLICY:
   UNKNOWN_FIELDS::WARN
 FIELDS:
   TITLE::["t"∧REQ∧REGEX["^[a-z_]+$"]]
-  LEVEL::["LOW"∧OPT∧ENUM[LOW,MID,HIGH]→§INDEXER]
+  LEVEL::["LOW"∧OPT∧ENUM[LOW,LOWER,MID,MIDDLE,HIGH]→§INDEXER]
   SIZE::[3∧OPT∧TYPE[NUMBER]∧RANGE[1,9]]
 ===END===
 ''',
@@ -73,9 +73,10 @@ def doc_reporting(t: Tape, marker: str) -> str:
         lines.append('  NAME::["' + t.pick(["abc", "def", "x y"], "rep.nm") + '"∧REQ→§INDEXER]')
     else:
         lines.append("  NAME::" + t.pick(ATOMS, "rep.nm2"))
-    lines.append("  KIND::" + t.pick(["X", "x", "Q", "y"], "rep.kind"))
+    # exact, wrong case, unknown, and proper prefixes of one / of several enum members
+    lines.append("  KIND::" + t.pick(["X", "x", "Q", "y", "AL", "ALP", "alpha", "B", "A", "ALPI"], "rep.kind"))
     if t.choose(2, "rep.count"):
-        lines.append("  COUNT::" + t.pick(["5", '"5"', "many"], "rep.cnt"))
+        lines.append("  COUNT::" + t.pick(["5", '"5"', "many", "1.0", "0.0", "1", "0", "true", "false", "-0.0"], "rep.cnt"))
     if t.choose(2, "rep.tags"):
         lines.append("  TAGS::[" + ",".join(t.pick(ATOMS, "rep.tag") for _ in range(1 + t.choose(3, "rep.nt"))) + "]")
     for u in unknown:
@@ -84,8 +85,8 @@ def doc_reporting(t: Tape, marker: str) -> str:
         lines.append("  KIND::Y")
     lines.append("GEN_B:")
     lines.append("  TITLE::" + t.pick(["good_title", "Bad Title", '"quoted"'], "rep.title"))
-    lines.append("  LEVEL::" + t.pick(["LOW", "low", "ULTRA"], "rep.level"))
-    lines.append("  SIZE::" + t.pick(["3", "12", '"4"'], "rep.size"))
+    lines.append("  LEVEL::" + t.pick(["LOW", "low", "ULTRA", "LO", "L", "MID", "M", "MI", "HI"], "rep.level"))
+    lines.append("  SIZE::" + t.pick(["3", "12", '"4"', "1.0", "1", "true", "0.0", "false"], "rep.size"))
     for u in t.shuffle(unknown, "rep.unk2")[:4]:
         lines.append(f"  {u}_B::1")
     if t.choose(3, "rep.lit") == 0:
